@@ -251,7 +251,7 @@ impl<'c, 's> Run<'c, 's> {
     fn c01(&mut self, ni: usize, b: &[u8], d: Dec, f: usize) {
         let fr = &self.frames[f];
         let exp = match fr.expect {
-            Some(e) if fr.intact() && fr.origin == Origin::Encoder && fr.bytes == b => e,
+            Some(e) if fr.intact() && matches!(fr.origin, Origin::Encoder | Origin::Response) && fr.bytes == b => e,
             _ => return,
         };
         let api = fr.api;
@@ -818,13 +818,23 @@ impl<'c, 's> Run<'c, 's> {
                 };
                 let logical = self.next_logical;
                 self.next_logical += 1;
+                // C01 also covers what the response encoders produce when process_packet drives them:
+                // delivered unaltered, a generated answer to one of the six answerable commands decodes
+                // to its payload (Success) or to the unsuccessful-completion error with its code
+                let (r_api, r_expect) = if resp.len() >= 13 && (1..=6).contains(&resp[10]) && resp[9] & 0x80 == 0 {
+                    let api = crate::calls::RESP_NAMES[(resp[10] - 1) as usize];
+                    let e = if resp[11] == 0 { Expect::Ok { mtype: T_CONTROL, start: 12 } } else { Expect::ErrCc(resp[11]) };
+                    (api, if resp[11] <= 5 { Some(e) } else { None })
+                } else {
+                    ("process_packet.response", None)
+                };
                 let fr = Frame {
                     orig: resp.clone(),
                     bytes: resp.clone(),
                     src: Some(ni),
                     origin: Origin::Response,
-                    api: "process_packet.response",
-                    expect: None,
+                    api: r_api,
+                    expect: r_expect,
                     n_alter: 0,
                     burst_only: false,
                     logical,
